@@ -25,7 +25,7 @@ from concurrent.futures import ThreadPoolExecutor
 
 from vlib import common
 
-PARSER_VERSION = "9"
+PARSER_VERSION = "10"
 CACHE_DIR = os.path.join(common.VERIF, ".cache", "c06-probes")
 
 # ---------------------------------------------------------------------------------------------
@@ -201,6 +201,8 @@ for i in range(32):
     X86REG["xmm%d" % i] = ("vec", i, 16)
     X86REG["ymm%d" % i] = ("vec", i, 32)
     X86REG["zmm%d" % i] = ("vec", i, 64)
+for i, n in enumerate(["ah", "ch", "dh", "bh"]):
+    X86REG[n] = ("gph", i, 1)
 for i in range(8):
     X86REG["mm%d" % i] = ("mm", i, 8)
     X86REG["k%d" % i] = ("k", i, 8)
@@ -261,6 +263,8 @@ class X86Sim:
 
     def setreg(self, r, org):
         self.reg[(r[0], r[1])] = org
+        if r[0] == "gp" and r[1] < 4 and r[2] >= 2:
+            self.reg[("gph", r[1])] = None
 
     def parse_op(self, s):
         s = s.strip()
@@ -475,6 +479,26 @@ class X86Sim:
             if o[0] == "m":
                 self.store(o, v if v is None else ("x87", v), o[5] or 4)
             return
+        if mn in ("movhpd", "movhps", "vmovhpd", "vmovhps") and len(ops) in (2, 3):
+            d = self.parse_op(ops[0])
+            m = self.parse_op(ops[-1])
+            lo = self.parse_op(ops[1]) if len(ops) == 3 else d
+            if d[0] == "r" and m[0] == "m" and lo[0] == "r":
+                lo_org = self.origin(lo[1])
+                hi_org = self.load(m, 8)
+                ok = False
+                if lo_org and hi_org and lo_org[0] == "stk" and hi_org[0] == "stk" and hi_org[1] == lo_org[1] + 8:
+                    ok = True
+                if lo_org and hi_org and lo_org[0] == "ind" and hi_org[0] == "ind" and hi_org[1] == lo_org[1] and hi_org[2] == lo_org[2] + 8:
+                    ok = True
+                if lo_org and hi_org and lo_org[0] == "sym" and hi_org[0] == "sym" and hi_org[1] == lo_org[1] and hi_org[2] == lo_org[2] + 8:
+                    ok = True
+                self.setreg(d[1], lo_org if ok else None)
+                return
+            if d[0] == "m":
+                self.store(d, None, 8)
+                return
+            raise Unparsed("movh form")
         if mn in X86_MOVES:
             if len(ops) != 2:
                 raise Unparsed("move with %d operands: %s" % (len(ops), mn))
